@@ -4,6 +4,7 @@ import (
 	"fmt"
 	"reflect"
 	"regexp"
+	"runtime"
 	"strings"
 	"unicode/utf8"
 
@@ -70,8 +71,66 @@ func runRapid(cfg *Cfg) {
 	for _, t := range targets {
 		if est := expectedNodes(t.S, 0, 0, map[[2]int]float64{}); est > 20000 {
 			// the generator is exponential on types that reach themselves through repeated/map fields
-			// (up to 10 elements per level, 10 levels): it terminates, but not within a test budget
-			out.Count("types_skipped_exponential_recursion")
+			// (up to 10 elements per level, 10 levels): it terminates, but not within a test budget.
+			// Such types are probed with a field mapper that watches the recursion depth of setFields
+			// on the call stack (must stay within the nesting limit) and aborts on a draw budget.
+			out.Count("types_probed_with_depth_guard")
+			guardSeeds := 12
+			if cfg.Tier == "thorough" {
+				guardSeeds = 300
+			}
+			for seed := 0; seed < guardSeeds; seed++ {
+				sd := int(cfg.Seed)*100000 + seed
+				replay := fmt.Sprintf("rapid %s opts=depthguard seed=%d", t.Full, sd)
+				calls := 0
+				maxDepth := 0
+				guardMapper := func(_ *rapidT, _ protoreflect.FieldDescriptor, _ string) (protoreflect.Value, bool) {
+					calls++
+					if calls < 20000 || calls%64 == 1 {
+						pcs := make([]uintptr, 4096)
+						n := runtime.Callers(0, pcs)
+						frames := runtime.CallersFrames(pcs[:n])
+						d := 0
+						for {
+							fr, more := frames.Next()
+							if strings.HasSuffix(fr.Function, ".setFields") {
+								d++
+							}
+							if !more {
+								break
+							}
+						}
+						if d > maxDepth {
+							maxDepth = d
+						}
+						if d > 14 {
+							panic(fmt.Sprintf("NESTING %d nested setFields calls: the nesting limit (10) is not enforced", d))
+						}
+					}
+					if calls > 60000 {
+						panic("BUDGET")
+					}
+					return protoreflect.Value{}, false
+				}
+				opts := rapidproto.GeneratorOptions{FieldMaps: []rapidproto.FieldMapper{guardMapper}}
+				_, p, pm := exampleOf(t, opts, sd)
+				out.Case(replay, true)
+				if maxDepth > out.res.Stats["guard_max_setFields_depth"] {
+					out.res.Stats["guard_max_setFields_depth"] = maxDepth
+				}
+				if maxDepth > 14 || (p && strings.Contains(pm, "NESTING")) {
+					pm = fmt.Sprintf("NESTING %d nested setFields calls: the nesting limit (10) is not enforced", maxDepth)
+					out.Violate("C18", "gen-exceeds-nesting-limit", firstLine(pm[strings.Index(pm, "NESTING"):]), replay)
+					break
+				}
+				if p && !strings.Contains(pm, "BUDGET") && !strings.Contains(pm, "failed to generate") && !strings.Contains(pm, "NESTING") {
+					out.Violate("C18", "gen-panic:depthguard", "generator failed: "+firstLine(pm), replay)
+					break
+				}
+				if p {
+					out.Count("depth_guard_budget_exhausted")
+				}
+			}
 			continue
 		}
 		out.res.Programs++
